@@ -86,10 +86,11 @@ Definition ICMPEcho_getters : gtable :=
 (* len(p) < 8 -> err; p[0] != 133 -> err *)
 Definition RS_IsValid (p : slice) : res bool :=
   if lenN p <? 8 then Ok false else b <- idx p 0 ;; Ok (b =? 133).
-(* if len(p) >= 26 && p[8] == 1 && p[9] == 3 { return p[10:26] }; return nil *)
+(* if len(p) >= 16 && p[8] == 1 && p[9] == 1 { return p[10:16] }; return nil
+   (repaired: looked for a 24-byte option and returned 16 bytes) *)
 Definition RS_SourceLLA : getter := fun p =>
-  c <- andr (Ok (26 <=? lenN p)) (andr (b <- idx p 8 ;; Ok (b =? 1)) (b <- idx p 9 ;; Ok (b =? 3))) ;;
-  if c then rsl p 10 26 else Ok VNil.
+  c <- andr (Ok (16 <=? lenN p)) (andr (b <- idx p 8 ;; Ok (b =? 1)) (b <- idx p 9 ;; Ok (b =? 1))) ;;
+  if c then rsl p 10 16 else Ok VNil.
 (* FastLog: Code SourceLLA *)
 Definition RS_String : getter := calls [ICMP_Code; RS_SourceLLA].
 
@@ -205,9 +206,12 @@ Definition LLC_Type_s (p : slice) : res string :=
   b <- idx p 2 ;; if N.land b 3 =? 3 then Ok "u" else
   b <- idx p 2 ;; if N.land b 1 =? 1 then Ok "s" else Ok "i".
 Definition LLC_Type : getter := fun p => s <- LLC_Type_s p ;; Ok (VS s).
-(* if p.Type() == "u" { return p[3:] }; return p[4:] *)
+(* if t := p.Type(); t == "u" || t == "snap" { return p[3:] }; if len(p) < 4 { return nil }; return p[4:]
+   (repaired: p[4:] on a 3-byte frame panicked; a SNAP frame is a U frame) *)
 Definition LLC_Payload : getter := fun p =>
-  s <- LLC_Type_s p ;; if String.eqb s "u" then rfrom p 3 else rfrom p 4.
+  s <- LLC_Type_s p ;;
+  if String.eqb s "u" || String.eqb s "snap" then rfrom p 3
+  else if lenN p <? 4 then Ok VNil else rfrom p 4.
 (* FastLog: DSAP SSAP Type Control *)
 Definition LLC_String : getter := calls [LLC_DSAP; LLC_SSAP; LLC_Type; LLC_Control].
 Definition LLC_getters : gtable :=
